@@ -502,3 +502,71 @@ class Gen:
             if x < 0.95: return self.path(d, cur)[0]
             return ("fn", r.choice(["true", "false"]), [])
         raise ValueError(typ)
+
+
+# ----------------------------------------------------------------------------------------------------------------------
+# AST construction helpers (witness expressions, fast-path pairs)
+def nm(name, pfx=A): return ("n", pfx, name)
+def st(test, axis="child", preds=(), ds=False): return (axis, test if isinstance(test, tuple) else nm(test), list(preds), ds)
+def absp(*steps): return ("path", "R", [s if isinstance(s, tuple) and len(s) == 4 else st(s) for s in steps])
+def relp(*steps): return ("path", "C", [s if isinstance(s, tuple) and len(s) == 4 else st(s) for s in steps])
+def fn(name, *args): return ("fn", name, list(args))
+def lit(s): return ("lit", s)
+def num(m, sc=0): return ("num", m, sc)
+def bop(op, a, b): return ("bin", op, a, b)
+DOT = ("path", "C", [])
+STAR, NODE, TEXT = ("a",), ("o",), ("t",)
+
+WITNESS_XML = ('<c xmlns="urn:xpa"><s>hello</s><n>5</n><b>true</b><e>two</e><bits>x z</bits><ll>3</ll><ll>1</ll><ll>-7</ll><ls>b</ls><ls/>'
+               '<l1><k>a</k><v>1</v><w>p</w><w>q</w><in><x>ax</x><y>7</y></in></l1>'
+               '<l1><k>b</k><v>2</v><in><x>bx</x></in><v xmlns="urn:xpb">bv</v></l1><l1><k>c</k></l1>'
+               '<l2><k1>a</k1><k2>1</k2><v>a1</v><l3><k>x</k><v>1</v></l3><l3><k>y</k><v>2</v></l3></l2>'
+               '<l2><k1>a</k1><k2>2</k2><v>a2</v><l3><k>x</k><v>3</v></l3></l2>'
+               '<ref>b</ref><ca>cc</ca><v xmlns="urn:xpb">bvv</v><s xmlns="urn:xpb">bs</s><ext xmlns="urn:xpb"><x>ex</x></ext></c>'
+               '<small xmlns="urn:xpa"><a>sa</a><sl>z</sl><sl>y</sl></small>'
+               '<top xmlns="urn:xpa"><id>2</id><v>t2</v></top><top xmlns="urn:xpa"><id>1</id><v>t1</v></top>')
+# last top-level node without children (F59)
+WITNESS_XML_F59 = '<c xmlns="urn:xpa"><s>a</s><n>1</n></c>'
+
+C_, L1 = st("c"), st("l1")
+U_C_L1 = bop("union", absp(C_), absp(C_, L1))
+# (finding, tree, context (0 = root), expression).  Mirrored deviations (F38-F41, F50-F56, F61) also occur in the random stream;
+# the entries here make sure each is exercised on every run.  F57/F58/F60 are not mirrored by the engine: witness only.
+WITNESSES = [
+    ("F38", 0, fn("string", num(25, 2))), ("F38", 0, fn("string", num(275, 2))), ("F38", 0, fn("concat", bop("div", num(1), num(4)), lit(""))),
+    ("F39", 0, fn("number", lit("12  "))), ("F39", 0, fn("number", lit("1e3"))), ("F39", 0, fn("number", lit("+1"))),
+    ("F39", 0, fn("number", lit("0x10"))), ("F39", 0, fn("number", lit("Infinity"))), ("F39", 0, fn("number", lit(" 12"))),
+    ("F40", 0, fn("floor", ("neg", num(15, 1)))), ("F40", 0, fn("ceiling", ("neg", num(15, 1)))), ("F40", 0, fn("round", ("neg", num(1)))),
+    ("F40", 0, fn("round", ("neg", num(26, 1)))), ("F40", 0, bop("div", num(1), fn("round", num(0)))),
+    ("F41", 0, fn("string-length", lit("ü€"))), ("F41", 0, fn("substring", lit("üx"), num(2))), ("F41", 0, fn("translate", lit("ü"), lit("ü"), lit("u"))),
+    ("F50", 0, absp(C_, L1, st(STAR, preds=[num(1)]))), ("F50", 0, absp(C_, L1, st(STAR, preds=[fn("last")]))),
+    ("F50", 0, absp(C_, L1, st("in"), st(STAR, "ancestor", preds=[num(1)]))),
+    ("F51", 0, absp(C_, st("l1", preds=[num(2)]), st("k"), st(STAR, "preceding"))),
+    ("F51", 0, absp(C_, st("l1", preds=[num(1)]), st("in"), st("x"), st(STAR, "following"))),
+    ("F51", 0, absp(C_, st("l1", preds=[num(2)]), st("c", "preceding"))),
+    ("F52", 0, fn("count", absp(C_, st(STAR, "ancestor")))), ("F52", 0, fn("count", absp(C_, st(STAR, "parent")))),
+    ("F52", 0, fn("count", absp(C_, st("s"), st(NODE)))),
+    ("F53", 0, absp(C_, st("ll", preds=[num(15, 1)]))), ("F53", 0, absp(C_, st("ll", preds=[bop("div", fn("last"), num(2))]))),
+    ("F54", 0, fn("count", absp(C_, st(TEXT, "descendant")))), ("F54", 0, fn("count", absp(C_, st("ls", preds=[bop("eq", DOT, lit(""))]), st(TEXT)))),
+    ("F55", 0, fn("string", absp(C_, st("l1", preds=[num(1)])))), ("F55", 0, fn("string-length", ("path", "R", []))),
+    ("F56", 0, bop("eq", absp(st("nosuch")), fn("false"))), ("F56", 0, bop("ne", absp(st("nosuch")), fn("true"))),
+    ("F56", 0, bop("lt", absp(st("nosuch")), fn("true"))), ("F56", 0, bop("gt", fn("false"), absp(C_, st("ll")))),
+    ("F61", 0, fn("floor", bop("div", num(1), num(0)))), ("F61", 0, fn("floor", bop("div", num(0), num(0)))),
+    ("F57", 0, ("path", ("E", U_C_L1), [st(STAR)])),
+    ("F57", 0, absp(st(STAR, ds=True), st(STAR))),
+    ("F57", 0, ("path", ("E", U_C_L1), [st("k", ds=True)])),
+    ("F57", 0, fn("count", ("path", ("E", U_C_L1), [st(STAR, ds=True)]))),
+    ("F57", 0, ("filter", absp(st(STAR, ds=True), st(STAR)), [num(2)])),
+    ("F57", 0, fn("string", ("path", ("E", bop("union", absp(C_, L1, st("in")), absp(C_, st("l1", preds=[num(2)])))), [st(STAR)]))),
+    ("F58", 0, absp(C_, L1, st(("n", None, "v")))),
+    ("F58", 0, absp(C_, st(STAR, preds=[bop("or", relp(st("l1", "self")), relp(st("l2", "self")))]), st(("n", None, "v")))),
+    ("F60", 0, fn("count", absp(st(TEXT, ds=True)))), ("F60", 0, fn("count", absp(st(NODE, ds=True)))),
+]
+# undefined behaviour / crashes: sent to the implementation only, one request per process
+CRASH_WITNESSES = [
+    ("F37", WITNESS_XML, 0, fn("ceiling", bop("div", num(1), num(0)))),
+    ("F37", WITNESS_XML, 0, fn("string", num(100000000000000000000))),
+    ("F37", WITNESS_XML, 0, absp(C_, st("ll", preds=[fn("number", lit("x"))]))),
+    ("F59", WITNESS_XML_F59, 0, absp(C_, st("d"), st(STAR, "preceding-sibling"))),
+    ("F32", WITNESS_XML, 0, fn("bit-is-set", ("path", "R", []), lit("x"))),
+]
